@@ -595,17 +595,24 @@ func (srv *server) unregisterClient(client *client) {
 				}
 				srv.willMessage[client.opts.ClientID] = wm
 				t := time.NewTimer(time.Duration(willDelayInterval) * time.Second)
+				// Run waits for the pending delayed wills; Stop discards them.
+				srv.wg.Add(1)
 				go func(clientID string) {
+					defer srv.wg.Done()
 					var send bool
 					select {
 					case send = <-wm.send:
 						t.Stop()
 					case <-t.C:
 						send = true
+					case <-srv.exitChan:
+						t.Stop()
 					}
 					srv.mu.Lock()
 					defer srv.mu.Unlock()
-					delete(srv.willMessage, clientID)
+					if srv.willMessage[clientID] == wm {
+						delete(srv.willMessage, clientID)
+					}
 					if !send {
 						return
 					}
